@@ -72,6 +72,9 @@ class RequestChannelCommon(StreamHandler, Publisher, Subscription, Disposable, m
         elif self._received_complete and isinstance(frame, (PayloadFrame, ErrorFrame)):
             logger().debug('%s: Dropping frame received after termination', self.__class__.__name__)
         elif isinstance(frame, PayloadFrame):
+            if frame.flags_complete:
+                self._received_complete = True  # before the subscriber is told: it may ask for more in on_next
+
             if frame.flags_next:
                 self.remote_subscriber.on_next(payload_from_frame(frame),
                                                is_complete=frame.flags_complete)
@@ -81,6 +84,7 @@ class RequestChannelCommon(StreamHandler, Publisher, Subscription, Disposable, m
             if frame.flags_complete:
                 self.mark_completed_and_finish(received=True)
         elif isinstance(frame, ErrorFrame):
+            self._received_complete = True
             self.remote_subscriber.on_error(error_frame_to_exception(frame))
             self.mark_completed_and_finish(received=True)
 
@@ -89,6 +93,8 @@ class RequestChannelCommon(StreamHandler, Publisher, Subscription, Disposable, m
             self.subscriber.subscription.cancel()
 
     def _complete_remote_subscriber(self):
+        self._received_complete = True
+
         if self.remote_subscriber is not None:
             self.remote_subscriber.on_complete()
 
@@ -117,6 +123,9 @@ class RequestChannelCommon(StreamHandler, Publisher, Subscription, Disposable, m
             self.mark_completed_and_finish(received=True)
 
     def cancel(self):
+        if self._received_complete:
+            return  # the peer's direction has ended: there is nothing to cancel
+
         self.send_cancel()
         self.mark_completed_and_finish(received=True)
 
@@ -125,4 +134,7 @@ class RequestChannelCommon(StreamHandler, Publisher, Subscription, Disposable, m
             self._sending_done.set()
 
     def request(self, n: int):
+        if self._received_complete:
+            return  # the peer's direction has ended: there is nothing left to ask for
+
         self.send_request_n(n)
